@@ -394,7 +394,41 @@ fn commit_alphabets(quick: bool) -> (Vec<Op>, Vec<Op>) {
     (first, later)
 }
 
+/// Window of the new root transaction that re-uses a stored subintent: it always contains the current
+/// epoch and always overlaps the subintent's window, so that static validation passes ("some epoch is valid
+/// for all intents") and the *engine* has to decide — also when the subintent is expired or not yet valid.
+fn reuse_root_window(now: u64, child: &Intent) -> (u64, u64) {
+    (now.min(child.end - 1), (now + 1).max(child.start + 1))
+}
+
 impl RingMachine {
+    /// The intents a resubmission carries (root first), or None for operations that build a new intent.
+    fn carried(&self, st: &St, op: &Op) -> Option<Vec<Intent>> {
+        match op {
+            Op::Replay { slot, .. } => {
+                let s = &st.slots[*slot as usize];
+                let mut v = vec![s.root.clone()];
+                if let Some((c, _)) = &s.child {
+                    v.push(c.clone());
+                }
+                Some(v)
+            }
+            Op::ReuseSub { slot, .. } => {
+                // the new root intent is fresh by construction; only the child can be a replay
+                let c = st.slots[*slot as usize].child.as_ref()?.0.clone();
+                let (rs, re) = reuse_root_window(st.now, &c);
+                Some(vec![Intent { hash: Hash([0u8; 32]), start: rs, end: re, sub: false }, c])
+            }
+            _ => None,
+        }
+    }
+
+    fn must_reject(st: &St, carried: &[Intent]) -> bool {
+        let lo = carried.iter().map(|i| i.start).max().unwrap();
+        let hi = carried.iter().map(|i| i.end).min().unwrap();
+        !(lo <= st.now && st.now < hi) || carried.iter().any(|i| st.committed.contains_key(&i.hash))
+    }
+
     fn new(quick: bool) -> RingMachine {
         let mut sim = new_sim();
         let now = current_epoch(&mut sim);
@@ -633,8 +667,9 @@ impl Machine for RingMachine {
                 let s = st.slots[*slot as usize].clone();
                 let (child, partial) = s.child.clone().expect("ReuseSub on a v2 slot");
                 st.nonce += 1;
-                let (raw, h) = build_v2(st.now, st.now + 1, st.nonce, &partial, *root_fails, false);
-                let root = Intent { hash: h.0, start: st.now, end: st.now + 1, sub: false };
+                let (rs, re) = reuse_root_window(st.now, &child);
+                let (raw, h) = build_v2(rs, re, st.nonce, &partial, *root_fails, false);
+                let root = Intent { hash: h.0, start: rs, end: re, sub: false };
                 let (out, _) = submit(&mut st.sim, &self.validator, &raw);
                 let class = self.judge(st, "subintent-in-new-transaction", &[root, child], &out)?;
                 if out.committed() {
@@ -702,6 +737,9 @@ impl<'a> Machine for Scanning<'a> {
     }
     fn step(&self, st: &mut St, op: &Op) -> Result<String, (String, String)> {
         let class = self.0.step(st, op)?;
+        if !(matches!(op, Op::NextEpoch) || class.contains(":commit-")) {
+            return Ok(class);
+        }
         let infos = self.0.scan_ring(st);
         if !infos.is_empty() {
             let mut g = self.1.lock().unwrap();
@@ -710,6 +748,17 @@ impl<'a> Machine for Scanning<'a> {
             }
         }
         Ok(class)
+    }
+}
+
+impl<'a> crate::explore::InPlace for Scanning<'a> {
+    /// Resubmissions that the reference model says must be rejected cannot change the ledger unless the
+    /// property is violated, so they run on the parent state without a fork.
+    fn in_place(&self, st: &St, op: &Op) -> bool {
+        match self.0.carried(st, op) {
+            Some(c) => RingMachine::must_reject(st, &c),
+            None => false,
+        }
     }
 }
 
@@ -1000,9 +1049,55 @@ fn replay(ctx: Ctx) -> ! {
     ctx.finish(Level::ModelChecking, "replay", 0, false, Map::new(), &[])
 }
 
+
+fn probe() {
+    use std::time::Instant as T;
+    let m = RingMachine::new(false);
+    let mut st = m.init();
+    let n = 300;
+    let t = T::now();
+    for _ in 0..n { let _ = m.fork(&st).unwrap(); }
+    println!("fork: {:.3} ms", t.elapsed().as_secs_f64() * 1000.0 / n as f64);
+    let t = T::now();
+    for _ in 0..n { let _ = st.sim.create_snapshot(); }
+    println!("create_snapshot: {:.3} ms", t.elapsed().as_secs_f64() * 1000.0 / n as f64);
+    let snap = st.sim.create_snapshot();
+    let t = T::now();
+    for _ in 0..n { let _ = LedgerSimulatorBuilder::new().without_kernel_trace().build_from_snapshot(snap.clone()); }
+    println!("build_from_snapshot(clone): {:.3} ms", t.elapsed().as_secs_f64() * 1000.0 / n as f64);
+    let t = T::now();
+    for _ in 0..n { let _ = m.fingerprint(&st); }
+    println!("fingerprint: {:.3} ms", t.elapsed().as_secs_f64() * 1000.0 / n as f64);
+    let t = T::now();
+    for _ in 0..n { m.step(&mut st, &Op::NextEpoch).unwrap(); }
+    println!("next_epoch: {:.3} ms", t.elapsed().as_secs_f64() * 1000.0 / n as f64);
+    let t = T::now();
+    for _ in 0..n { st.slots.clear(); st.commits_used = 0; st.reuse_used = 0; m.step(&mut st, &Op::V1 { s_off: 0, len: 6, fail: false }).unwrap(); }
+    println!("v1 commit: {:.3} ms", t.elapsed().as_secs_f64() * 1000.0 / n as f64);
+    let t = T::now();
+    for _ in 0..n { m.step(&mut st, &Op::Replay { slot: 0, resigned: false }).unwrap(); }
+    println!("replay identical: {:.3} ms", t.elapsed().as_secs_f64() * 1000.0 / n as f64);
+    let t = T::now();
+    for _ in 0..n { m.step(&mut st, &Op::Replay { slot: 0, resigned: true }).unwrap(); }
+    println!("replay resigned: {:.3} ms", t.elapsed().as_secs_f64() * 1000.0 / n as f64);
+    let t = T::now();
+    for _ in 0..n { st.slots.clear(); st.commits_used = 0; st.reuse_used = 0; m.step(&mut st, &Op::V2 { r_off: 0, r_len: 1, c_off: 0, c_len: 6, root_fails: true }).unwrap(); }
+    println!("v2 commit: {:.3} ms", t.elapsed().as_secs_f64() * 1000.0 / n as f64);
+    let t = T::now();
+    for _ in 0..n { st.reuse_used = 0; m.step(&mut st, &Op::ReuseSub { slot: 0, root_fails: true }).unwrap(); }
+    println!("reuse sub (commit failure): {:.3} ms", t.elapsed().as_secs_f64() * 1000.0 / n as f64);
+    let t = T::now();
+    for _ in 0..n { let _ = m.scan_ring(&st); }
+    println!("scan_ring: {:.3} ms", t.elapsed().as_secs_f64() * 1000.0 / n as f64);
+}
+
 pub fn run(ctx: Ctx) -> ! {
     if ctx.replay.is_some() {
         replay(ctx);
+    }
+    if std::env::var("MC_PROBE").is_ok() {
+        probe();
+        std::process::exit(0);
     }
     let (l1_evals, l1_detail) = layer1(&ctx);
     let t1 = ctx.elapsed_s();
